@@ -2,6 +2,7 @@ import IrVerif.Drive.Util
 import IrVerif.Drive.Pack
 import IrVerif.Model.ExtLife
 import IrVerif.Model.StrTensor
+import IrVerif.Model.PyTensor
 open Lean IrVerif.Drive
 namespace IrVerif.Drive.TensorLife
 open IrVerif.Pack IrVerif.TensorRepr IrVerif.Drive.Pack
@@ -98,8 +99,86 @@ def pyElemOfJson (j : Json) : Except String PyElem :=
 
 end StrTensor
 
+section PyTensor
+open IrVerif.PyTensor
+
+/-- a plain Python value: `null` None, `true`/`false`, `{"i": n}`, `{"f": bits}`, `{"c": [re, im]}`,
+    `{"s": text}`, `{"b": [bytes]}`, an array for a list / tuple -/
+partial def pyValOfJson (j : Json) : Except String PyVal :=
+  match j with
+  | .null => pure (.leaf .none)
+  | .bool b => pure (.leaf (.bool b))
+  | .arr xs => do
+      let vs ← xs.toList.mapM pyValOfJson
+      pure (.seq (PyList.ofList vs))
+  | _ =>
+    match j.getObjVal? "i" with
+    | .ok v => do let i : Int ← fromJson? v; pure (.leaf (.int i))
+    | .error _ =>
+    match j.getObjVal? "f" with
+    | .ok v => do let b : Nat ← fromJson? v; pure (.leaf (.float b))
+    | .error _ =>
+    match j.getObjVal? "c" with
+    | .ok v => do
+        let a : Array Nat ← fromJson? v
+        pure (.leaf (.complex (a.getD 0 0) (a.getD 1 0)))
+    | .error _ =>
+    match j.getObjVal? "s" with
+    | .ok v => do let s : String ← fromJson? v; pure (.leaf (.str s))
+    | .error _ =>
+    match j.getObjVal? "b" with
+    | .ok v => do let a : Array Nat ← fromJson? v; pure (.leaf (.bytes a.toList))
+    | .error _ => throw "not a python value"
+
+def optDimsJ : Option (List Nat) → Json
+  | some ds => natsJ ds
+  | none => Json.null
+
+def pyResultJ (r : PyResult) : Json :=
+  match r with
+  | .numeric d dims elems =>
+    -- `legal`: the conclusion of C04_pytensor_agree evaluated (every element fits the item size)
+    obj [("kind", Json.str "numeric"), ("d", toJson d.code), ("dims", natsJ dims), ("elems", natsJ elems),
+         ("legal", toJson (elems.all (· < 256 ^ npItemBytes d) && elems.length == prod dims)),
+         ("obs", IrVerif.Drive.Pack.observe (.array d dims elems) [])]
+  | .str s => obj [("kind", Json.str "str"), ("obs", srepObs s)]
+  | .degenerate dims => obj [("kind", Json.str "degenerate"), ("dims", optDimsJ dims)]
+  | .raised e => obj [("kind", Json.str "raised"), ("exc", Json.str e)]
+  | .unmodelled => obj [("kind", Json.str "unmodelled")]
+
+end PyTensor
+
 def handle : Handler := fun m j =>
   match m with
+  | "pyt.run" => some do
+      let v ← pyValOfJson (← j.getObjVal? "v")
+      let dt ← match j.getObjVal? "dtype" with
+        | .ok .null => pure none
+        | .ok c => do
+            let n : Nat ← fromJson? c
+            match DType.ofCode n with
+            | some d => pure (some d)
+            | none => throw s!"not an element type code: {n}"
+        | .error _ => pure none
+      let r := IrVerif.PyTensor.pyTensor v dt
+      return obj [("r", pyResultJ r), ("shape", optDimsJ (IrVerif.PyTensor.npShape v)),
+                  ("nleaves", toJson (IrVerif.PyTensor.leaves v).length),
+                  ("leaves_wf", toJson ((IrVerif.PyTensor.leaves v).all IrVerif.PyTensor.Leaf.wf)),
+                  ("hyp_nested_float", toJson (IrVerif.PyTensor.hypNestedFloat v dt)),
+                  ("hyp_int64", toJson (IrVerif.PyTensor.hypInt64 v dt)),
+                  ("hyp_text", toJson (IrVerif.PyTensor.hypText v dt)),
+                  ("hyp_ragged", toJson (IrVerif.PyTensor.hypRagged v dt))]
+  | "pyt.cast" => some do
+      -- one scalar into one element of a dtype (the conversion table on its own)
+      let v ← pyValOfJson (← j.getObjVal? "v")
+      let d ← getDType j "d"
+      match v with
+      | .leaf l =>
+        match IrVerif.PyTensor.castLeaf d l with
+        | .ok x => return obj [("ok", toJson x)]
+        | .err e => return obj [("raised", Json.str e)]
+        | .unmodelled => return obj [("unmodelled", toJson true)]
+      | _ => throw "pyt.cast: not a scalar"
   | "extlife.run" => some do
       let e ← extOfJson (← j.getObjVal? "ext")
       let fs ← fsOfJson j
